@@ -890,8 +890,8 @@ static void plan_c19_inject(void)
     long *calls = dlsym(h, "refisal_invert_calls"), *fail_at = dlsym(h, "refisal_fail_invert_at");
     if (!calls || !fail_at) { fprintf(stderr, "reference plug-in lacks control symbols\n"); exit(2); }
     int bes[2] = { EC_BACKEND_ISA_L_RS_VAND, EC_BACKEND_ISA_L_RS_CAUCHY };
-    int km[][2] = { {4,2}, {2,2}, {10,4}, {3,3} };
-    for (int b = 0; b < 2; b++) for (int q = 0; q < 4; q++) {
+    int km[][2] = { {4,2}, {2,2}, {10,4}, {3,3}, {1,3}, {2,5}, {8,8}, {20,12} };
+    for (int b = 0; b < 2; b++) for (int q = 0; q < 8; q++) {
         struct shape sh = { bes[b], km[q][0], km[q][1], km[q][1] };
         if (!vh_group_begin("S/C19/inject/%s/k%dm%d", be_name(sh.be), sh.k, sh.m)) continue;
         struct stripe s;
@@ -934,6 +934,47 @@ static void plan_c19_inject(void)
     }
 }
 
+
+/* ------------------------------------------------------------------ plan C19 singular sets
+ * isa_l_rs_vand's generator is not MDS for every shape: some erasure sets with |E| <= m leave a singular k x k matrix.
+ * The reference (gf8 rank of the first k surviving rows) searches ALL sets with |E| <= m of every shape up to the threshold;
+ * the implementation is then run on exactly the singular ones (decode, reconstruct of every missing index): it must
+ * return a negative code - never success with other bytes, never a positive code, never a crash. */
+struct sctx { struct stripe *s; long singular; };
+static void on_sing(uint32_t E, void *ctx)
+{
+    struct sctx *c = ctx; struct stripe *s = c->s;
+    if (!E || isa_first_k_invertible(s, E)) return;
+    c->singular++;
+    if (!vh_case_begin("E%x/singular", E)) return;
+    vh_nontrivial(); vh_count("singular_sets", 1);
+    struct pres id = { O_ID, 0, D_NONE, GP_END, 0 }; int list[64]; int nf = build_list(s, E, &id, list);
+    /* decode needs the inversion only if a data fragment is missing */
+    struct dec_res r = call_decode(s, list, nf, GP_END, 0);
+    check_decode(s, E, &r, 0);
+    if ((E & ((1u << s->sh.k) - 1)) && r.rc == 0) vh_count("singular_but_decoded_exactly", 1);
+    dec_release(s, &r);
+    for (int d = 0; d < s->n; d++) if (E >> d & 1) { uint8_t *out; int rc = call_recon(s, list, nf, GP_END, d, &out); check_recon(s, E, d, rc, out, 0); }
+}
+static void plan_c19_singular(void)
+{
+    int thorough = !strcmp(vh_tier(), "thorough");
+    int max_n = (int)vh_opt("sing_n", thorough ? 20 : 16);
+    int bes[2] = { EC_BACKEND_ISA_L_RS_VAND, EC_BACKEND_ISA_L_RS_CAUCHY };
+    for (int n = 2; n <= max_n; n++) for (int k = 1; k < n; k++) for (int b = 0; b < 2; b++) {
+        struct shape sh = { bes[b], k, n - k, n - k };
+        if (!vh_group_begin("S/C19sing/%s/k%dm%d", be_name(sh.be), sh.k, sh.m)) continue;
+        struct stripe s;
+        if (stripe_open(&s, sh, CHKSUM_CRC32, (uint64_t)2 * k + 3, PAT_RAMP, NULL) == 0) {
+            struct sctx c = { &s, 0 };
+            enum_subsets(n, 1, sh.m, on_sing, &c);
+            if (vh_case_begin("searched")) { if (c.singular) vh_nontrivial(); vh_count("shapes_searched", 1); if (c.singular) vh_count("shapes_with_singular_sets", 1); }
+        }
+        stripe_close(&s, 0);
+        vh_group_end();
+    }
+}
+
 /* ------------------------------------------------------------------ dispatch */
 static void engine(void)
 {
@@ -955,7 +996,9 @@ static void engine(void)
     else if (!strcmp(p, "c19rt")) plan_roundtrip("C19rt", 0, 0, 1, 0);
     else if (!strcmp(p, "c19rc")) plan_roundtrip("C19rc", 0, 0, 1, 1);
     else if (!strcmp(p, "c19sc")) plan_c02(0, 0, 1, "C19sc");
-    else if (!strcmp(p, "c19fn")) { plan_c06(0, 0, 1, "C19fn"); plan_c19_inject(); }
+    else if (!strcmp(p, "c19fn")) plan_c06(0, 0, 1, "C19fn");
+    else if (!strcmp(p, "c19inj")) plan_c19_inject();
+    else if (!strcmp(p, "c19sing")) plan_c19_singular();
     else { fprintf(stderr, "unknown plan %s\n", p); exit(2); }
 }
 int main(int argc, char **argv) { return vh_main(argc, argv, engine); }
